@@ -315,6 +315,26 @@ SHOULD = FnSpec(FILE, 'should_continue', C, attrs='#[verifier::spinoff_prover]',
     ])
 
 
+# ConvergenceStorage::get — the reuse entry braid() calls (`braid_buf.convergence.get()`): every block and the
+# root index are empty whatever an earlier (possibly aborted) braid left behind, so no stale convergence count
+# or stale on-disk root entry can reach the new ConvergenceMap. No precondition.
+G = r'impl ConvergenceStorage'
+ST_GET = FnSpec(FILE, 'get', G, contract="""
+        ensures r.root@.len() == 0,
+            forall|k: int| 0 <= k < NUM_BLOCKS ==> (#[trigger] r.blocks[k]).entries@.len() == 0 && r.blocks[k].wf(),
+            *final(r) == *final(self),
+""", rewrites=[('for b in &mut self.blocks {\n            b.clear();\n        }', """let mut i: usize = 0;
+        while i < NUM_BLOCKS
+            invariant i <= NUM_BLOCKS,
+                forall|k: int| 0 <= k < i ==> (#[trigger] self.blocks[k]).entries@.len() == 0 && self.blocks[k].wf(),
+            decreases NUM_BLOCKS - i,
+        {
+            self.blocks[i].clear();
+            i += 1;
+        }""", 1, 'R14 (`for b in &mut self.blocks` -> index loop)')])
+
+
 def build():
     return build_unit(PRELUDE, [('impl Block', [IS_FULL, IS_EMPTY, INSERT, FIND, CLEAR]),
+                                ('impl ConvergenceStorage', [ST_GET]),
                                 ('impl ConvergenceMap', [LRU, INSERT_ENTRY, SPILL, LOAD, FIND_MEM, CONSUME, SHOULD])])
